@@ -22,6 +22,7 @@ type CheckOpts struct {
 	Quiet    bool
 	NoEvid   bool
 	OutDir   string
+	Fast     bool // selftest mode: short solver limits, no retry
 }
 
 type CheckReport struct {
@@ -189,7 +190,12 @@ func RunCheck(o CheckOpts) (*CheckReport, error) {
 		timeout = 60
 		race = false
 	}
-	res, cres := DischargeAll(obls, covers, DischargeOpts{OutDir: outDir, TimeoutS: timeout, Race: race, Workers: 12})
+	workers := 12
+	if o.Fast {
+		timeout = 6
+		workers = 6
+	}
+	res, cres := DischargeAll(obls, covers, DischargeOpts{OutDir: outDir, TimeoutS: timeout, Race: race, Workers: workers, NoRetry: o.Fast})
 	rep.Results, rep.Covers = res, cres
 	rep.Obligations = len(res)
 	for _, r := range res {
